@@ -168,7 +168,7 @@ func c15Gen(rt *rapid.T) wProg {
 				writer, wt, st = b, tb, ta
 			}
 			p.Ops = append(p.Ops, wOp{K: "sub", S: stuck, T: st}, wOp{K: "pause", S: stuck},
-				wOp{K: "flood", S: writer, T: wt, N: gPick(rt, []int{100, 120, 124, 125, 126, 127, 128, 129, 130, 140}, "fill")})
+				wOp{K: "flood", S: writer, T: wt, N: gPick(rt, []int{100, 120, 124, 125, 126, 127, 128, 129, 130, 140, 158, 165, 200}, "fill")})
 		}
 		switch x := gInt(rt, 0, 99, "end"); {
 		case stuck >= 0:
@@ -508,6 +508,29 @@ func (o *c15Obs) After(w *wWorld, st *wStep) *kit.Viol {
 					return v
 				}
 				cc.calleeGone = true
+			}
+		}
+	}
+	if st.Op.K == "flood" || st.Op.K == "pub" {
+		// a party's connection which does not read is dropped by the topic when its queue is full: that
+		// ends the call like any other way of leaving the topic
+		live := w.liveTopics()
+		for r, cc := range o.cur {
+			lt := live[r]
+			if lt == nil || expectEnd[r] != "" {
+				continue
+			}
+			for _, sess := range []int{cc.origSess, cc.calleeSess} {
+				if sess < 0 || sess >= len(w.sess) || w.sess[sess] == nil || !w.sess[sess].pause.Load() {
+					continue
+				}
+				if _, was := o.preAtt[sess][r]; !was || (sess == cc.calleeSess && cc.calleeGone) {
+					continue
+				}
+				if _, still := lt.Sessions[w.sess[sess].s.sid]; !still {
+					expectEnd[r] = "disconnected"
+					o.kinds["party-dropped-for-full-queue"] = true
+				}
 			}
 		}
 	}
